@@ -123,6 +123,15 @@ def subs(t: str) -> List[str]:
     return SUB.get(t, [t])
 
 
+def ab_term() -> str:
+    """DAO classes below an alternatively mapped DAO (from_dao converts a temporary parent DAO for them)"""
+    return "[" + "; ".join(f"{CLASS_ID[c]}%Z" for c in sorted(ALTBASE) if c in CLASS_ID) + "]"
+
+
+def alts_ab() -> str:
+    return f"{alts_term()} {ab_term()}"
+
+
 def alts_term() -> str:
     return "[" + "; ".join(f"({CLASS_ID[a]}%Z, {CLASS_ID[m]}%Z)" for a, m in sorted(ALT.items())) + "]"
 
@@ -745,7 +754,7 @@ def run(tier: str, seed: int, replay=None) -> int:
     rep.trusted = core.COQ_TRUSTED + [
         "hand-written model Orm/ObjGraphWalk.v (memoised walk of dao.py to_dao/from_dao; fields written at initialisation; "
         "DAO class identified with the class it wraps), tied by differential execution on random graphs over the dataset classes",
-        "source pins pins/ormrt.json (38 methods of dao.py, alternative_mappings.py, custom_types.py, wrapped_table.py, utils.create_engine that the hand "
+        "source pins pins/ormrt.json (41 methods of dao.py, alternative_mappings.py, custom_types.py, wrapped_table.py, utils.create_engine that the hand "
         "models mirror; a changed method reopens the correspondence obligation)",
         "harness/c04.py: class table of the dataset (scalar / reference fields, checked against the DAO mappers' relationship order), "
         "graph builder through the dataclass constructors, heap dump, scalar interning (numbers by value), python bisimulation",
@@ -841,14 +850,12 @@ def run(tier: str, seed: int, replay=None) -> int:
                        ("subclass_in_base_field>0", "subclass_in_base_field"), ("alt>0", "alt_objs"), ("altbase>0", "altbase_objs")):
             dist[k] += 1 if ft[key] else 0
         dist["altcycle"] += 1 if ft["altcycle"] else 0
-        in_f = not ft["alt_objs"] and not ft["altbase_objs"]
-        dist["in_F04"] += 1 if in_f else 0
-        meta = {"descr": d, "origin": org, "ft": ft, "res": res, "in_f": in_f, "heap": heap, "root": r}
+        meta = {"descr": d, "origin": org, "ft": ft, "res": res, "in_f": False, "heap": heap, "root": r}
         metas.append(meta)
         if "exc" in res:
             continue
         args = f"{heap_term(heap)} {r}%nat {heap_term(res['heap'])} {res['root']}%nat"
-        exprs.append((len(metas) - 1, f"{fn} {alts_term()} {args}" if model_ok else f"{fn} {args}"))
+        exprs.append((len(metas) - 1, f"{fn} {alts_ab()} {args}" if model_ok else f"{fn} {args}"))
     # cases over freshly generated class models (ORMatic generates the layer in a subprocess per model): classes whose instances
     # can be FALSY (__len__ over a collection / JSON list, __bool__ over a scalar) behind single references and in collections
     gdist = {"models": 0, "cases": 0, "setup_errors": [], "falsy_objs>0": 0, "falsy_behind_single_ref>0": 0, "falsy_in_collection>0": 0,
@@ -894,12 +901,16 @@ def run(tier: str, seed: int, replay=None) -> int:
             bad.append((m, f"exception {res['exc']}"))
             continue
         code, f04, wf = codes[i]
+        m["in_f"] = bool(model_ok and f04 == 1)      # F04w: coherent class model and no mapping object handed out in progress
+        dist["in_F04"] += 1 if m["in_f"] else 0
+        dist["old_F04"] = dist.get("old_F04", 0) + (1 if not ft["alt_objs"] and not ft["altbase_objs"] else 0)
         m["code"] = code
         if wf != 1:
             rep.oblige("harness:wf", False, f"{m['origin']}: dumped heap is not closed")
             continue
-        if model_ok and (f04 == 1) != (ft["alt_objs"] == 0):
-            rep.oblige("harness:F04", False, f"{m['origin']}: Coq F04={f04}, harness alt_objs={ft['alt_objs']}")
+        if model_ok and f04 != 1 and not ft["altcycle"]:
+            rep.oblige("harness:F04w", False, f"{m['origin']}: the model reports a mapping object handed out in progress, but no "
+                                              f"alternatively mapped object of the case lies on a cycle")
         # the two comparators must agree: canonical forms equal <-> python bisimulation finds no difference
         if (code in (0, 1)) != (res["py_iso"] is None):
             rep.oblige("harness:comparators", False, f"{m['origin']}: canon says {'equal' if code in (0, 1) else 'different'}, "
@@ -912,8 +923,8 @@ def run(tier: str, seed: int, replay=None) -> int:
             else:
                 stale += 1
             continue
-        if code == 2 and ft["altcycle"]:
-            kf_altcycle += 1
+        if code == 2 and ft["altcycle"] and not m["in_f"]:
+            kf_altcycle += 1        # C04-a: outside F04w and the implementation fails exactly as the faithful model predicts
             continue
         if c04c_open and ft["altbase_objs"] >= 2 and "_objs" in res and py_iso(res["_objs"][0], res["_objs"][1], relax_altbase=True) is None:
             kf_altbase += 1          # finding C04-c (not modelled: DAO below an alternatively mapped DAO); narrow matcher above
@@ -935,7 +946,7 @@ def run(tier: str, seed: int, replay=None) -> int:
             why = "exception " + m["res"]["exc"] if "exc" in m["res"] else f"shrunk: {m['res'].get('py_iso')}"
         if "heap" in m["res"] and model_ok:
             try:
-                alts = m.get("alts") or alts_term()
+                alts = m.get("alts") or alts_ab()
                 a1 = f"{heap_term(m['heap'])} {m['root']}%nat"
                 v = core.coq_eval_sx(PROP, HEADER, [f"spec_canon {a1}", f"{code_fns(m['descr'], True)[1]} {alts} {a1}",
                                                    f"spec_canon {heap_term(m['res']['heap'])} {m['res']['root']}%nat"])
